@@ -132,6 +132,10 @@ class Crazyflie():
         self.packet_received.add_callback(self._check_for_answers)
 
         self._answer_patterns = {}
+        # Protects _answer_patterns, which is updated by the sending threads,
+        # the retry timers and the incoming packet handler. Never held while
+        # calling out of this class.
+        self._answer_patterns_lock = Lock()
 
         self._send_lock = Lock()
 
@@ -229,8 +233,9 @@ class Crazyflie():
 
     def _cancel_answer_timers(self):
         """Forget all pending answers and stop their retry timers"""
-        answer_patterns = self._answer_patterns
-        self._answer_patterns = {}
+        with self._answer_patterns_lock:
+            answer_patterns = self._answer_patterns
+            self._answer_patterns = {}
         for timer in list(answer_patterns.values()):
             timer.cancel()
 
@@ -332,21 +337,22 @@ class Crazyflie():
         timer.
         """
         longest_match = ()
-        if len(self._answer_patterns) > 0:
-            data = (pk.header,) + tuple(pk.data)
-            for p in list(self._answer_patterns.keys()):
-                logger.debug('Looking for pattern match on %s vs %s', p, data)
-                if len(p) <= len(data):
-                    if p == data[0:len(p)]:
-                        match = data[0:len(p)]
-                        if len(match) >= len(longest_match):
-                            logger.debug('Found new longest match %s', match)
-                            longest_match = match
-        if len(longest_match) > 0:
-            # The pattern may have been dropped by close_link() in the meantime
-            timer = self._answer_patterns.pop(longest_match, None)
-            if timer is not None:
-                timer.cancel()
+        timer = None
+        with self._answer_patterns_lock:
+            if len(self._answer_patterns) > 0:
+                data = (pk.header,) + tuple(pk.data)
+                for p in list(self._answer_patterns.keys()):
+                    logger.debug('Looking for pattern match on %s vs %s', p, data)
+                    if len(p) <= len(data):
+                        if p == data[0:len(p)]:
+                            match = data[0:len(p)]
+                            if len(match) >= len(longest_match):
+                                logger.debug('Found new longest match %s', match)
+                                longest_match = match
+            if len(longest_match) > 0:
+                timer = self._answer_patterns.pop(longest_match, None)
+        if timer is not None:
+            timer.cancel()
 
     def send_packet(self, pk, expected_reply=(), resend=False, timeout=0.2):
         """
@@ -375,20 +381,23 @@ class Crazyflie():
                                       lambda: self._no_answer_do_retry(pk,
                                                                        pattern,
                                                                        timeout))
-                    self._answer_patterns[pattern] = new_timer
+                    with self._answer_patterns_lock:
+                        self._answer_patterns[pattern] = new_timer
                     new_timer.start()
                 elif resend:
                     # Check if we have gotten an answer, if not try again
                     pattern = expected_reply
-                    if pattern in self._answer_patterns:
-                        logger.debug('We want to resend and the pattern is there')
-                        if self._answer_patterns[pattern]:
-                            new_timer = Timer(timeout,
-                                              lambda:
-                                              self._no_answer_do_retry(
-                                                  pk, pattern, timeout))
+                    new_timer = Timer(timeout,
+                                      lambda:
+                                      self._no_answer_do_retry(
+                                          pk, pattern, timeout))
+                    with self._answer_patterns_lock:
+                        still_pending = pattern in self._answer_patterns
+                        if still_pending:
                             self._answer_patterns[pattern] = new_timer
-                            new_timer.start()
+                    if still_pending:
+                        logger.debug('We want to resend and the pattern is there')
+                        new_timer.start()
                     else:
                         # The answer has been received, or the link has been
                         # closed, in the meantime: nothing to resend
